@@ -1,7 +1,7 @@
 """C02 — queued operations survive crashes exactly once (partial)."""
 from sa import names as N
 from sa.prog import (Site, Slice, TERM, callee_of, ok_sites, op_local, op_place, op_const, outcome_arms, in_arm,
-                     lock_acquisitions, lock_states, return_sites)
+                     lock_acquisitions, lock_states, return_sites, site_must_perform)
 from sa.rules.common import is_test_or_bench
 
 EXPLANATION = ("Decides the structural clauses recovery rests on: writer and reader agree on the record-type table and on what "
@@ -342,7 +342,7 @@ def r02c(ctx, P):
         ctx.saw(rb)
         sl = Slice(rb)
         clears = [Site(rb, b) for b, t in rb.calls() if callee_of(t).endswith("Vec::<T, A>::clear") and "pending_ops" in sl.fields(t["args"][0])]
-        truncs = [Site(rb, b) for b, t in rb.calls() if P.call_reaches(t, N.is_(N.F_SET_LEN))]
+        truncs = [Site(rb, b) for b, t in rb.calls() if site_must_perform(P, rb, b, t, N.is_(N.F_SET_LEN))]
         oks = ok_sites(rb)
         g1 = bool(clears) and all(any(rb.dominates(c, o) for c in clears) for o in oks)
         g2 = bool(truncs) and all(any(rb.dominates(c, o) and in_arm(rb, o, outcome_arms(rb, c)["ok"]) for c in truncs) for o in oks)
@@ -355,7 +355,8 @@ def r02c(ctx, P):
     if ctx.anchor(rid, dr, "<IndexWriter as Drop>::drop"):
         ctx.saw(dr)
         sl = Slice(dr)
-        syncs = [Site(dr, b) for b, t in dr.calls() if P.call_reaches(t, N.is_(N.F_SYNC_ALL))]
+        # the call must fsync on every success path of its callee chain (a helper that syncs only under some flag does not count)
+        syncs = [Site(dr, b) for b, t in dr.calls() if site_must_perform(P, dr, b, t, N.is_(N.F_SYNC_ALL))]
         okd = False
         for s in syncs:
             deps = dr.control_deps_transitive(s.b)
